@@ -201,6 +201,19 @@ func checkC14(c *Ctx) {
 				}
 			}
 		}
+		// the count stays raised until the send is over: no send is reachable after a (non-deferred)
+		// decrement - otherwise Close sees zero, closes the queue and this send panics
+		for _, d := range findInstrs(fn, isDecr) {
+			if _, isDefer := d.(*ssa.Defer); isDefer {
+				continue
+			}
+			for _, snd := range sends {
+				snd := snd
+				if reachAvoiding(d, false, func(i ssa.Instruction) bool { return i == snd }, nil) != nil {
+					fail(d.Pos(), "the in-flight count is lowered before the send on the metric queue: Close can observe zero, close the queue, and the send that follows panics with 'send on closed channel'", "decrement: "+c.describe(d), "send: "+c.describe(snd))
+				}
+			}
+		}
 		// Dec on every exit after the Inc, exactly once
 		decLift := c.newLifter(isDecr, 2)
 		if esc := reachAvoiding(inc, false, isReturn, decLift.Must); esc != nil {
